@@ -135,8 +135,9 @@ CONDITIONS = [
               "0 <= embedded <= 3", "0 <= nkeys1 <= 2", "0 <= outer <= 2"],
          partitions={"quick": [{"issuer": i, "signer": s, "u22": 0, "u12": (i + s) % 3, "e2_is_sp": (i + s) % 2 == 0, "nkeys1": 2 if (i + s) % 4 else 0, "outer": (i + 2 * s) % 3, "u11": (i * s) % 3}
                                for i in range(len(ISSUERS)) for s in range(len(CERTS))],
-                     "thorough": [{"issuer": i, "signer": s, "only_md": f, "e2_is_sp": (i + s) % 2 == 0, "outer": o, "nkeys1": 2 if (i + s + o) % 5 else 1}
-                                  for i in range(len(ISSUERS)) for s in range(len(CERTS)) for f in (False, True) for o in range(3)]},
+                     "thorough": [{"issuer": i, "signer": s, "only_md": f, "e2_is_sp": (i + s) % 2 == 0, "outer": o, "nkeys1": 2 if (i + s + o) % 5 else 1,
+                                   "u21": a, "u22": b}
+                                  for i in range(len(ISSUERS)) for s in range(len(CERTS)) for f in (False, True) for o in range(3) for a in range(3) for b in range(3)]},
          timeout={"quick": 600, "thorough": 1800}, path_timeout=60,
          functions=["sigver.SecurityContext._check_signature", "sigver.SecurityContext.verify_signature", "sigver.cert_from_instance/cert_from_key_info/pem_format",
                     "mdstore.MetadataStore.certs", "mdstore.MetaData.certs (extract_certs)", "mdstore.repack_cert", "mdstore.InMemoryMetaData.do_entity_descriptor"],
